@@ -50,54 +50,41 @@ def predicate_literals(model: Model, qual: str) -> t.List[t.Tuple[str, bool]]:
 
 
 def rule_c02_r1(model: Model) -> RuleResult:
+    """Decided on the classifier's outcome formula evaluated on abstract worlds (classifier.py), whatever the shape of the code:
+    text-like values are never sequences / iterables of elements, only instances of the guarded ABC are accepted, and the mapping
+    classifier accepts mappings only."""
+    import collections
+    from ..classifier import Classifier
     r = RuleResult('C02-R1', 'sequence / iterable predicates exclude str, bytes, bytearray; mapping predicate tests mappings only', floor=3)
-    for (name, positive) in (('data_is_sequence', 'collections.abc.Sequence'), ('data_is_iterable', 'collections.abc.Iterable')):
+    spec = {
+        'data_is_sequence': {'refuse': [str, bytes, bytearray, int, float, type(None), dict, set, frozenset, 'Iterable', 'Mapping', 'Set'],
+                             'why': 'is-a-Sequence and not text-like'},
+        'data_is_iterable': {'refuse': [str, bytes, bytearray, int, float, type(None)],
+                             'why': 'is-an-Iterable and not text-like'},
+        'data_is_mapping': {'refuse': [str, bytes, bytearray, int, float, type(None), list, tuple, set, frozenset, range, 'Sequence', 'Iterable', 'Set'],
+                            'why': 'exactly mappings (dict / Mapping)'},
+    }
+    _ = collections
+    for name, sp in spec.items():
         q = f'pane.converters.{name}'
         f = model.func(q)
         r.instances += 1
         r.analysed.add(q)
-        lits = predicate_literals(model, q)
-        r.sample({'predicate': name, 'literals': [('' if p else 'not ') + a for a, p in lits]})
-        # top-level shape must be a conjunction
-        ret = [n for n in ast.walk(f.node) if isinstance(n, ast.Return)][0].value
-        if isinstance(ret, ast.BoolOp) and isinstance(ret.op, ast.Or):
-            r.fail(q, 'disjunction', f.loc(ret), f"{name} must be a conjunction (is-a-{positive.split('.')[-1]} and not text-like)")
-            continue
-        pos_ok = False
-        excluded: t.Set[str] = set()
-        for (a, p) in lits:
-            ic = _isinstance_classes(a)
-            if ic is None or ic[0] != 'VAL':
-                r.fail(q, f"literal {a}", f.loc(), f"{name} tests something other than the kind of its argument")
-                continue
-            if p:
-                if ic[1] <= {positive} | ({'collections.abc.Sequence'} if positive.endswith('Iterable') else set()):
-                    pos_ok = True
-                else:
-                    r.fail(q, f"accepts {sorted(ic[1])}", f.loc(), f"{name} accepts kinds beyond {positive}")
+        c = Classifier(model, f)
+        answers = {(w.__name__ if isinstance(w, type) else f'plain {w}'): c.answer(w) for w in sp['refuse']}
+        r.sample({'predicate': name, 'tests': c.atoms, 'answers': answers})
+        bad = [w for w, a in answers.items() if a != 'F']
+        if c.opaque:
+            r.fail(q, f"literal {c.opaque[0]}", f.loc(), f"{name} tests something other than the kind of its argument")
+        elif bad:
+            text = [w for w in bad if w in ('str', 'bytes', 'bytearray')]
+            if text:
+                r.fail(q, f"does not exclude {sorted(text)}", f.loc(),
+                       f"{name} lets {', '.join(sorted(text))} through as a sequence of elements")
             else:
-                excluded |= ic[1]
-        if not pos_ok:
-            r.fail(q, 'no positive kind test', f.loc(), f"{name} does not test isinstance(val, {positive.split('.')[-1]})")
-        missing = STRLIKE - excluded
-        if missing:
-            r.fail(q, f"does not exclude {sorted(x.split('.')[-1] for x in missing)}", f.loc(),
-                   f"{name} lets {', '.join(sorted(x.split('.')[-1] for x in missing))} through as a sequence of elements")
+                r.fail(q, f"accepts {sorted(bad)}", f.loc(), f"{name} accepts kinds beyond the documented ones (must be: {sp['why']})")
         else:
             r.ok()
-    q = 'pane.converters.data_is_mapping'
-    f = model.func(q)
-    r.instances += 1
-    r.analysed.add(q)
-    lits = predicate_literals(model, q)
-    ok = True
-    for (a, p) in lits:
-        ic = _isinstance_classes(a)
-        if ic is None or ic[0] != 'VAL' or not p or not (ic[1] <= MAP_CLASSES):
-            ok = False
-            r.fail(q, f"literal {('' if p else 'not ') + a}", f.loc(), "data_is_mapping must accept exactly mappings (dict / Mapping)")
-    if ok and lits:
-        r.ok()
     return r
 
 
